@@ -202,6 +202,15 @@ def _shift_scripts(tier, seed):
                            rules=[scen.rule(**{"from": "A", "type": "data", "seq_idx": k, "nth": 1, "act": "drop"}) for k in drops])
         sc["cfg"]["info"]["bases"] = [[100, 1000, 2000]] + [[300, ia, 3000] for ia in isns]
         out.append(sc)
+    # probes that expire on a size-blackholing path, with the ISN swept so that one of the expiring probes carries
+    # sequence number 0 (the rewind after its expiry then crosses the wrap backwards)
+    sc = scen.transfer("shift/probe", seed, n_ab=40000, chunk_w=65536, chunk_r=65536,
+                       opts_a=dict(link_mtu=1500, tx_init=8192, tx_max=8192, probe_retx=1), opts_b=dict(link_mtu=1500),
+                       net={"latency_us": 10000}, info={"class": "fair-lossy"},
+                       pre_steps=[{"op": "net_set", "from": "A", "to": "B", "blackhole_above": 1000},
+                                  {"op": "net_set", "from": "B", "to": "A", "blackhole_above": 1000}])
+    sc["cfg"]["info"]["bases"] = [[100, 1000, 2000]] + [[300, (65536 - k) % 65536, 3000] for k in range(0, 14)]
+    out.append(sc)
     bases_quick = [(100, 1000, 2000), (65530, 62000, 64000), (500, 60000, 65535)]
     bases_thorough = bases_quick + [(0, 0, 0), (65535, 65535, 65535), (1, 64512, 1023), (32768, 32767, 32768),
                                     (rng.randrange(65536), rng.randrange(65536), rng.randrange(65536))]
